@@ -150,4 +150,26 @@ def run(rep):
 
 
 def replay(rep, path):
-    raise tlc.MachineryError("replay: rerun ./check C10 with the same VERIF_SEED")
+    """Regenerate the design of the stored case from its seed, elaborate it with the current /repo and judge again."""
+    import json
+    d = json.load(open(path))
+    if d.get("component") == "condition":
+        c = make_cond(d["cfg"]["seed"])
+        r, acc, rej, dev = judge.judge("CondDepsTrace", [{"design": c["design"], "raised": c["raised"], "cycle": c["cycle"]}])
+        for x in rej:
+            rep.violation({"component": "condition", "cfg": d["cfg"], "clauses": sorted(x["clauses"]), "what": c["msg"], "design": c["design"]})
+    else:
+        seed = d["cfg"]["seed"]
+        cases = make((seed, (seed - rep_base(seed)) % 4 == 0))
+        c = cases[min(d["cfg"].get("attempt", 0), len(cases) - 1)]
+        r, acc, rej, dev = judge.judge("CombDepsTrace", [{"design": c["design"], "raised": c["raised"], "cycle": c["cycle"]}])
+        for x in rej:
+            cl = set(x["clauses"]) & {"WellFormedImpliesAcyclic", "ModelAcyclic"}
+            if cl:
+                rep.violation({"component": "core", "cfg": d["cfg"], "clauses": sorted(cl), "what": c["msg"], "design": c["design"]})
+    rep.add("traces_validated_against_impl", 1)
+
+
+def rep_base(seed):
+    """seeds are rep.seed * 100003 + i (i < 100003)"""
+    return (seed // 100003) * 100003
